@@ -302,7 +302,14 @@ theorem request_nominates' (a : Agent) (now : Nat) (l : Cand) (src : Nat) (m : M
     have hP1 : PendOK a1 := PendOK.of_eq D.disc.pending
       (congrArg Agent.nextTid D.disc.rest : (stripPairs a1).nextTid = (stripPairs a).nextTid)
       (congrArg Core.tag hcore) hinv.pendOK
-    rcases cldHandleRequest_nominates a1 now m l r (by rw [hcfg]; exact hfull) huc hnom hP1 hl1 hr1' with
+    have hnd1 : NoDefer a1 := by
+      obtain ⟨extra, he, hfresh'⟩ := D.disc.pairs
+      intro p hp
+      rw [he] at hp
+      rcases List.mem_append.mp hp with hp | hp
+      · exact hinv.noDefer p hp
+      · rw [hfresh' p hp]
+    rcases cldHandleRequest_nominates a1 now m l r (by rw [hcfg]; exact hfull) huc hnom hP1 hnd1 hl1 hr1' with
       hsel | ⟨q, b, hq, hq1, hq2, hbc, hout, hpend, hrem⟩
     · exact Or.inl hsel
     · right
@@ -354,11 +361,13 @@ theorem response_validates (a : Agent) (now : Nat) (l : Cand) (src : Nat) (m : M
     exact this
   refine ⟨?_, ?_, ?_⟩
   · exact succ_modPair p.id (fun p => { p with respRecv := p.respRecv + 1 }) (fun _ => rfl) (fun _ => rfl)
-      (succ_hsSel p pd hB)
+      (succ_hsFin _ p pd (succ_hsSel p pd hB))
   · intro hc hu hn
-    exact hsSel_ctl_uc (A.modPair p.id (hsMark pd)) p pd (hctl.trans hc) hu hn
+    exact (congrArg Option.isSome (hsFin_selected _ p pd _)).trans
+      (hsSel_ctl_uc (A.modPair p.id (hsMark pd)) p pd (hctl.trans hc) hu hn)
   · intro hc hn hd
-    exact hsSel_cld_nom (A.modPair p.id (hsMark pd)) p pd (hctl.trans hc) hn hd
+    exact (congrArg Option.isSome (hsFin_selected _ p pd _)).trans
+      (hsSel_cld_nom (A.modPair p.id (hsMark pd)) p pd (hctl.trans hc) hn hd)
 
 /-- a controlling agent gets a selected pair only by a success response to one of its USE-CANDIDATE transactions -/
 theorem ctl_select_needs_uc (a : Agent) (now : Nat) (l : Cand) (src : Nat) (m : Msg) (hc : a.controlling = true)
